@@ -39,7 +39,18 @@ def _loop_closed(msg):
     return RuntimeError('Event loop is closed')  # a text the run loop itself looks for
 
 
-EXC = {'ValueError': ValueError, 'KeyError': KeyError, 'RuntimeError': RuntimeError, 'Boom': Boom,
+def _chained(msg):
+    """an exception with a __cause__ and a __context__ (raise X from Y inside an except block)"""
+    try:
+        try:
+            raise KeyError('inner cause')
+        except KeyError as inner:
+            raise Boom(msg) from inner
+    except Boom as e:
+        return e
+
+
+EXC = {'Chained': _chained, 'ValueError': ValueError, 'KeyError': KeyError, 'RuntimeError': RuntimeError, 'Boom': Boom,
        'TimeoutError': TimeoutError, 'OSError': OSError,
        # exception types the library uses for its own control flow: raised by a handler they are just handler errors
        'QueueShutDown': svc.QueueShutDown, 'QueueFull': asyncio.QueueFull, 'LoopClosed': _loop_closed}
@@ -564,7 +575,15 @@ def make_handler(w: World, hi: int, spec: dict):
             w.rec('exit', act, 'ret')
             return fresh() if r is None else r
         except asyncio.CancelledError:
-            w.rec('exit', act, 'cancelled')
+            try:
+                if spec.get('cleanup'):
+                    # a handler that needs time to unwind after a cancellation (awaits in its finally / except blocks);
+                    # a second cancellation cuts the unwinding short
+                    w.rec('cleanup', act, spec['cleanup'])
+                    await asyncio.sleep(spec['cleanup'])
+                    w.last_progress = w.loop.time()
+            finally:
+                w.rec('exit', act, 'cancelled')
             raise
         except BaseException as e:
             w.rec('exit', act, 'raise:' + type(e).__name__)
